@@ -44,6 +44,8 @@ def invariant(v, where, tag):
                 check(isinstance(val, dict) and all(isinstance(k, T[1]) for k in val), "dict keys conform", f"{tag}/nonconforming-key-{cname}.{a}", lambda: f"{where}: {val!r}")
             elif kind == "list":
                 check(isinstance(val, list), "container type", f"{tag}/nonconforming-{cname}.{a}", lambda: f"{where}: {val!r}")
+            elif kind in ("klist", "kset"):
+                check(type(val).__name__ == {"klist": "KeyedList", "kset": "KeyedSet"}[kind], "container type", f"{tag}/nonconforming-container-{cname}.{a}", lambda: f"{where}: {type(val).__name__} {val!r}")
             for x in elems:
                 check(any(c.__name__ == T[-1] for c in type(x).__mro__), "container element conforms", f"{tag}/nonconforming-elem-{cname}.{a}", lambda: f"{where}: {x!r}")
                 invariant(x, where, tag)
@@ -65,10 +67,13 @@ def make(prop, fam, tmpl, opname, attr=None, conform=True, inplace_mode="sym", f
             o, by = build_k1(NS, P, bool(xset)), build_k1(NS, P, True)
             if opname in ("setattr", "delattr"):
                 assume(ip)
+            if opname in ("transform_identity_kw", "transform_other_kw"):
+                assume(bool(xset))
             if opname in ("delattr", "reset") and attr == "x":
                 assume(bool(xset))
             if opname in ("transform", "transform2"):
                 assume(bool(xset))
+            P["other"] = build_k1(NS, P, True)
             op = k1_ops(opname, attr, P, ip, conform)
             op.must_raise = getattr(op, "must_raise", (not conform) or op.effect is None)
         elif tmpl == "K2":
@@ -86,7 +91,7 @@ def make(prop, fam, tmpl, opname, attr=None, conform=True, inplace_mode="sym", f
             if opname.startswith("setattr"):
                 assume(ip)
             op = k3_ops(NS, opname, attr, P, ip)
-            op.must_raise = False
+            op.must_raise = opname.endswith("_bad")
         elif tmpl == "K4":
             o, by = build_k4(NS, P), build_k4(NS, P)
             if opname.startswith("setattr"):
@@ -181,4 +186,4 @@ def warm(tmpl, fault=False):
     return out
 
 
-K1_MATRIX = [("with", a) for a in ("x", "n", "s", "o", "u", "lit", "f")] + [("setattr", a) for a in ("x", "s", "u", "lit")] + [("transform", a) for a in ("x", "s")] + [("reset", a) for a in ("x", "n")] + [("delattr", "x"), ("delattr", "s"), ("reset_all", "n"), ("update2", "n"), ("transform2", "n"), ("update_unknown", "n")]
+K1_MATRIX = [("with", a) for a in ("x", "n", "s", "o", "u", "lit", "f")] + [("setattr", a) for a in ("x", "s", "u", "lit")] + [("transform", a) for a in ("x", "s")] + [("reset", a) for a in ("x", "n")] + [("delattr", "x"), ("delattr", "s"), ("reset_all", "n"), ("update2", "n"), ("transform2", "n"), ("update_unknown", "n"), ("transform_identity_kw", "n"), ("transform_other_kw", "n")]
